@@ -1,1 +1,7 @@
 import PlushModel.Bytes
+import PlushModel.Token
+import PlushModel.Lexer
+import PlushModel.Ast
+import PlushModel.Printer
+import PlushModel.Parser
+import PlushModel.Dump
